@@ -6,7 +6,9 @@ package vsync
 
 import (
 	"sync"
+	"unsafe"
 
+	"verif/vrace"
 	"verif/vrt"
 )
 
@@ -21,6 +23,11 @@ type hdr struct {
 	id     int
 	inited bool
 }
+
+// race detector tokens of a primitive (two distinct addresses inside its header); the edges reported are the ones
+// package sync reports for the real primitives
+func (h *hdr) tokA() unsafe.Pointer { return unsafe.Pointer(&h.gen) }
+func (h *hdr) tokB() unsafe.Pointer { return unsafe.Pointer(&h.id) }
 
 func (h *hdr) fresh() bool {
 	g := vrt.Gen()
@@ -54,6 +61,7 @@ func (m *Mutex) Lock() {
 	m.locked = true
 	m.holder = vrt.Tid()
 	vrt.Touch(m.h.id, true, 1)
+	vrace.Acquire(m.h.tokA())
 }
 
 func (m *Mutex) TryLock() bool {
@@ -67,6 +75,7 @@ func (m *Mutex) TryLock() bool {
 	m.locked = true
 	m.holder = vrt.Tid()
 	vrt.Touch(m.h.id, true, 1)
+	vrace.Acquire(m.h.tokA())
 	return true
 }
 
@@ -79,6 +88,7 @@ func (m *Mutex) Unlock() {
 	if !m.locked {
 		panic("sync: unlock of unlocked mutex")
 	}
+	vrace.Release(m.h.tokA())
 	m.locked = false
 	vrt.Touch(m.h.id, true, 3)
 }
@@ -109,6 +119,8 @@ func (m *RWMutex) Lock() {
 	}
 	m.writer = true
 	vrt.Touch(m.h.id, true, 5)
+	vrace.Acquire(m.h.tokA())
+	vrace.Acquire(m.h.tokB())
 }
 
 func (m *RWMutex) TryLock() bool {
@@ -121,6 +133,8 @@ func (m *RWMutex) TryLock() bool {
 	}
 	m.announced, m.writer = true, true
 	vrt.Touch(m.h.id, true, 5)
+	vrace.Acquire(m.h.tokA())
+	vrace.Acquire(m.h.tokB())
 	return true
 }
 
@@ -133,6 +147,7 @@ func (m *RWMutex) Unlock() {
 	if !m.writer {
 		panic("sync: Unlock of unlocked RWMutex")
 	}
+	vrace.Release(m.h.tokA())
 	m.announced, m.writer = false, false
 	vrt.Touch(m.h.id, true, 7)
 }
@@ -143,6 +158,7 @@ func (m *RWMutex) RLock() {
 	m.init()
 	m.readers++
 	vrt.Touch(m.h.id, true, 8)
+	vrace.Acquire(m.h.tokA())
 }
 
 func (m *RWMutex) TryRLock() bool {
@@ -155,6 +171,7 @@ func (m *RWMutex) TryRLock() bool {
 	}
 	m.readers++
 	vrt.Touch(m.h.id, true, 8)
+	vrace.Acquire(m.h.tokA())
 	return true
 }
 
@@ -169,6 +186,7 @@ func (m *RWMutex) RUnlock() {
 	if m.readers <= 0 {
 		panic("sync: RUnlock of unlocked RWMutex")
 	}
+	vrace.ReleaseMerge(m.h.tokB())
 	m.readers--
 	vrt.Touch(m.h.id, true, 10)
 }
@@ -264,6 +282,9 @@ func (w *WaitGroup) Add(delta int) {
 		vrt.Point("wg.add", w.h.id, nil)
 		w.init()
 	}
+	if delta < 0 {
+		vrace.ReleaseMerge(w.h.tokA())
+	}
 	w.n += delta
 	if w.n < 0 {
 		panic("sync: negative WaitGroup counter")
@@ -277,6 +298,7 @@ func (w *WaitGroup) Wait() {
 	w.init()
 	vrt.Point("wg.wait", w.h.id, func() bool { return w.n == 0 })
 	vrt.Touch(w.h.id, true, 16)
+	vrace.Acquire(w.h.tokA())
 }
 
 // Once ------------------------------------------------------------------------
@@ -299,11 +321,13 @@ func (o *Once) Do(f func()) {
 	o.init()
 	if o.done {
 		vrt.Touch(o.h.id, false, 17)
+		vrace.Acquire(o.h.tokA())
 		return
 	}
 	o.running = true
 	vrt.Touch(o.h.id, true, 18)
 	defer func() {
+		vrace.ReleaseMerge(o.h.tokA())
 		o.running = false
 		o.done = true
 		vrt.Touch(o.h.id, true, 19)
